@@ -7,6 +7,7 @@ CONSTANTS
   InitSilentSets <- SilentOne
   NextSilentSets <- SilentNone
   MaxSilentChanges = 1
+  WakeAllDone = TRUE
   Bug = "AdvanceAny"
 INVARIANTS AgreementH NoSkip Acceptable AcceptJustifiedH CacheHarmless
 CHECK_DEADLOCK FALSE
